@@ -6,8 +6,10 @@ import (
 	"bytes"
 	"encoding/json"
 	"fmt"
+	"io"
 	"math/rand/v2"
 	"net"
+	"net/http"
 	"os"
 	"os/exec"
 	"path/filepath"
@@ -99,6 +101,7 @@ func c20All(thorough bool, rng *rand.Rand) []c20Scenario {
 	out = append(out, combos...)
 	for _, c := range []string{"deploy-ok", "deploy-unhealthy", "deploy-conflict", "deploy-bad-target", "remove-ok", "remove-unknown", "pause-ok", "pause-unknown", "stop-ok", "stop-unknown",
 		"resume-ok", "resume-unknown", "rollout-deploy-ok", "rollout-deploy-unknown", "rollout-deploy-unhealthy", "rollout-set-ok", "rollout-set-no-targets", "rollout-set-unknown", "rollout-stop-ok", "rollout-stop-unknown", "list-ok",
+		"deploy-slow-drain-ok", "rollout-deploy-slow-drain-ok",
 		"down-deploy", "down-remove", "down-pause", "down-stop", "down-resume", "down-list", "down-rollout-deploy", "down-rollout-set", "down-rollout-stop"} {
 		out = append(out, c20Scenario{Part: "exit-code", Case: c})
 	}
@@ -402,6 +405,39 @@ func c20ExitCode(t *testing.T, run *Run, bin string, sc c20Scenario) {
 	switch strings.TrimPrefix(sc.Case, "down-") {
 	case "deploy-ok", "deploy":
 		args = []string{"deploy", "web", "--target", ga2, "--host", "web.example"}
+	case "deploy-slow-drain-ok", "rollout-deploy-slow-drain-ok":
+		// the proxy reports success only after the replaced target has drained, which here takes
+		// longer than the deploy timeout: a request of 3s is in flight on it (the drain timeout is 30s)
+		rollout := strings.HasPrefix(sc.Case, "rollout-")
+		if rollout {
+			if out, code := u.CLI("rollout", "deploy", "base", "--target", ga); code != 0 {
+				run.Inconclusive("rollout deploy failed: %s", out)
+				return
+			}
+			u.CLI("rollout", "set", "base", "--percent", "100")
+		}
+		slowDone := make(chan string, 1)
+		go func() {
+			req, _ := http.NewRequest("GET", fmt.Sprintf("http://127.0.0.1:%d/slow", u.HTTP), nil)
+			req.Host = "base.example"
+			req.Header.Set("X-Sleep", "3s")
+			req.Header.Set("Cookie", "kamal-rollout=u1")
+			resp, err := (&http.Client{Timeout: 60 * time.Second}).Do(req)
+			if err != nil {
+				slowDone <- "error: " + err.Error()
+				return
+			}
+			b, _ := io.ReadAll(resp.Body)
+			resp.Body.Close()
+			slowDone <- fmt.Sprintf("%d %s", resp.StatusCode, b)
+		}()
+		time.Sleep(500 * time.Millisecond) // the request is at its target by now
+		defer func() { <-slowDone }()
+		if rollout {
+			args = []string{"rollout", "deploy", "base", "--target", ga2, "--deploy-timeout", "1s", "--drain-timeout", "30s"}
+		} else {
+			args = []string{"deploy", "base", "--target", ga2, "--host", "base.example", "--deploy-timeout", "1s", "--drain-timeout", "30s"}
+		}
 	case "deploy-unhealthy":
 		args = []string{"deploy", "web", "--target", dead, "--host", "web.example", "--deploy-timeout", "1s"}
 	case "deploy-conflict":
